@@ -7,6 +7,7 @@ import (
 	"io"
 	"log"
 	"os"
+	"strings"
 	"time"
 
 	"verifharness/specfs"
@@ -146,3 +147,14 @@ func accessWord(d []byte) (uint32, error) {
 }
 
 var _ = time.Now
+
+// CI prints a value below 2^63 as a primitive-integer literal (see coq/Corr/AuthInts.v);
+// where the expected type is `int` the delimiter is not needed, inside list notations it is.
+func CI(x uint64) string { return fmt.Sprintf("%d%%uint63", x) }
+func CIs(xs []uint64) string {
+	out := make([]string, len(xs))
+	for i, x := range xs {
+		out[i] = CI(x)
+	}
+	return "[" + strings.Join(out, "; ") + "]"
+}
